@@ -310,6 +310,11 @@ def body(H, case):
         for label, (X, Y, Z) in evals:
             try:
                 got = P(X, Y, Z, **kw)
+            except (OverflowError, ZeroDivisionError) as e:
+                if label != "scalar":
+                    H.prove(f"{name}: evaluates at {label} arguments ({type(e).__name__}: {e})", False)
+                    continue
+                got = float("nan")  # Python scalars raise where numpy gives inf / nan: outside the claim (see same_value)
             except Exception as e:
                 H.prove(f"{name}: evaluates at {label} arguments ({type(e).__name__}: {e})", False)
                 continue
@@ -362,8 +367,11 @@ def body(H, case):
             H.prove(f"{name}: pickle round trip gives an equal expression with the same time dependence", bool(ok))
             if ok and evals:
                 Z0 = evals[0][1][2]
-                got2 = Q(x, y, Z0, **kw)
-                got1 = P(x, y, Z0, **kw)
+                try:
+                    got2 = Q(x, y, Z0, **kw)
+                    got1 = P(x, y, Z0, **kw)
+                except (OverflowError, ZeroDivisionError):
+                    got1 = got2 = float("nan")  # overflow of Python scalars: outside the claim (see same_value)
                 same_value(H, f"{name}: unpickled expression evaluates to the same value", got2, got1)
         except Exception as e:
             H.prove(f"{name}: can be pickled ({type(e).__name__}: {e})", False)
